@@ -47,6 +47,15 @@ CHECKS = {
              "zero delays (the omitted default) give the plain sum. The model is run with integer-tag sources against MultiAntennaArray "
              "(1-5 antennas, 1-2 pols, interleaved set_time/add_time/reset_start), and the formula is evaluated on the implementation.",
         design="3/C15", technique="Coq induction over request sequences (law-free routing) + integer-tag correspondence"),
+    "C10": dict(
+        text="Theorems for all request partitions and op histories about the stream state machine (clock in sample periods, sequential "
+             "generator position): concatenated chunked requests = the single request sample for sample (evaluation times and generator "
+             "draws) for streams with at most one noise source; sample k at clock+k; clock = last set_time + added times + samples drawn; "
+             "update_noise restores clock/flag and advances the generator by exactly the probe; the chirp's central phase difference is "
+             "f_start - fch1 + drift*t, negated for descending bands (exact over Q). The two-noise-source case is refuted in the model "
+             "(c10_two_noise_sources_refuted) and reported as KNOWN-FINDING D21. Every request of the implementation is rebuilt from the "
+             "model's description with numpy from a clone of the generator and compared bit for bit at dyadic rates.",
+        design="3/C10", technique="Coq induction over request lists / op histories + generator-indexed correspondence"),
 }
 
 PENDING_REASON = "check not built yet in this session (planned in DESIGN.md section 3); no claim is made for it in this commit"
